@@ -251,19 +251,20 @@ Definition line_ok (l : str) : bool := no_byte LF l && no_byte CR l && match l w
 Definition sanitize (v : str) : str :=
   trim_ows (map (fun c => if (c =? CR) || (c =? LF) then 32 else c) v).
 
-Definition status_line (minor : N) (code : N) (reason : str) : str :=
-  b "HTTP/1." ++ [48 + minor] ++ [32] ++ dec code ++ [32] ++ reason.
+(* "HTTP/1.<minor> <d2><d1><d0> <reason>" *)
+Definition status_line (minor d2 d1 d0 : N) (reason : str) : str :=
+  b "HTTP/1." ++ [48 + minor] ++ [32] ++ [48 + d2; 48 + d1; 48 + d0] ++ [32] ++ reason.
+Definition code_of (d2 d1 d0 : N) : N := d2 * 100 + d1 * 10 + d0.
 
 Definition error_body (name msg errtext : str) : str := name ++ [32] ++ msg ++ [LF] ++ errtext ++ [LF].
 
-(* header lines in the order Header.Write emits them (sorted by name) *)
-Definition error_lines (minor code : N) (reason name msg errtext : str) (close : bool) : list str :=
-  [status_line minor code reason] ++
+(* header lines in the order net/http emits them: the transfer writer's lines first, then the header map sorted by name *)
+Definition error_lines (d2 d1 d0 : N) (name msg errtext : str) (close : bool) : list str :=
   (if close then [b "Connection: close"] else []) ++
   [b "Content-Length: " ++ dec (N.of_nat (length (error_body name msg errtext)));
    b "Content-Type: text/plain; charset=utf-8"] ++
-  (if code =? 407 then [b "Proxy-Authenticate: Basic realm=""" ++ sanitize name ++ b """"] else []) ++
+  (if code_of d2 d1 d0 =? 407 then [b "Proxy-Authenticate: Basic realm=""" ++ sanitize name ++ b """"] else []) ++
   [b "X-Forwarder-Error: " ++ sanitize (name ++ [32] ++ errtext)].
 
-Definition error_wire (minor code : N) (reason name msg errtext : str) (close : bool) : str :=
-  head_bytes (error_lines minor code reason name msg errtext close) ++ error_body name msg errtext.
+Definition error_wire (minor d2 d1 d0 : N) (reason name msg errtext : str) (close : bool) : str :=
+  status_line minor d2 d1 d0 reason ++ CRLF ++ head_bytes (error_lines d2 d1 d0 name msg errtext close) ++ error_body name msg errtext.
